@@ -59,7 +59,7 @@ fn lib_pae(frags: &[Vec<Vec<u8>>]) -> (Vec<u8>, Vec<u8>, usize) {
             }
         };
     }
-    call!(0, 1, 2, 3, 4, 5, 6, 7, 8);
+    call!(0, 1, 2, 3, 4, 5, 6, 7, 8, 9, 10, 11, 12, 13, 14, 15, 16, 17, 18, 19, 20, 21, 22, 23, 24, 25, 26, 27, 28, 29, 30, 31, 32, 33, 34);
     let n_writes = r.writes.len();
     (v, r.writes.concat(), n_writes)
 }
@@ -367,6 +367,46 @@ fn adapters<B: crate::backend::Backend, P: crate::prims::Prims>(opts: &Opts, rep
             }
         }
     }
+    // dense windows around powers of two: every total length from 2^k - 120 to 2^k + 40 (k = 12, 13, 14, 16),
+    // with a footer and an assertion present (fixed-size internal buffers whose size test forgets a piece)
+    for base in [4096usize, 8192, 16384, 65536] {
+        for total in (base - 120)..=(base + 40) {
+            idx += 1;
+            if !opts.mine_sys(idx) {
+                continue;
+            }
+            if B::VER == 1 && total % 4 != 0 {
+                continue;
+            }
+            let mut rng = Rng::derive(opts.seed, &stream, idx);
+            let (fl, al) = (5usize, if B::HAS_AAD { 17usize } else { 0 });
+            let (msg, footer, aad) = (rng.bytes(total - fl - al), rng.bytes(fl), rng.bytes(al));
+            let key: [u8; 32] = rng.arr();
+            let nonce = rng.bytes(B::LOCAL_NONCE);
+            let kl = KeyPair::<B>::Local(local_key::<B>(&key));
+            let want = join_token(&kl.header(), &r::local_seal::<P>(B::VER, &key, &nonce, &msg, &footer, &aad), &footer);
+            let d = || json!({"backend": B::NAME, "message_len": msg.len(), "footer_len": fl, "assertion_len": al, "sum": total});
+            rep.case(&format!("{}.adapter-through-tag.window-around-2^k", B::NAME), fnv_parts(&[B::NAME.as_bytes(), &(total as u64).to_le_bytes()]), true);
+            if !matches!(guard(|| kl.seal_with_nonce(&nonce, &msg, &footer, &aad)), Ok(Ok(t)) if t == want) {
+                rep.violation(&format!("C15|{}|local|mac-adapter-saw-different-bytes:window", B::NAME), d());
+            }
+            if !matches!(guard(|| kl.open(&want, &aad)), Ok(Ok((m, _))) if m == msg) {
+                rep.violation(&format!("C15|{}|local|mac-adapter-saw-different-bytes:open:window", B::NAME), d());
+            }
+            match guard(|| kp.seal(&msg, &footer, &aad)) {
+                Ok(Ok(t)) => {
+                    let (_, body, f) = split_token(&t);
+                    if r::public_verify::<P>(B::VER, &pk_raw, &body, &f, &aad).as_deref() != Some(&msg[..]) {
+                        rep.violation(&format!("C15|{}|public|digest-adapter-saw-different-bytes:window", B::NAME), d());
+                    }
+                    if !matches!(guard(|| kp.open(&t, &aad)), Ok(Ok((m, _))) if m == msg) {
+                        rep.violation(&format!("C15|{}|public|digest-adapter-saw-different-bytes:verify:window", B::NAME), d());
+                    }
+                }
+                _ => rep.violation(&format!("C15|{}|public|sign-failed:window", B::NAME), d()),
+            }
+        }
+    }
     // one very long fragment on each axis (above any 16-bit or 64 KiB internal limit)
     for (ml, fl, al) in [(70_001usize, 3usize, 0usize), (5, 70_001, 0), (5, 3, 70_001), (66_000, 66_000, if B::HAS_AAD { 66_000 } else { 0 })] {
         idx += 1;
@@ -451,8 +491,8 @@ pub fn run(opts: &Opts) {
     huge_pieces(opts, &mut rep);
     let mut idx = 0u64;
     let mut table: HashMap<Vec<u8>, Vec<Vec<u8>>> = HashMap::new();
-    // (1) systematic: piece counts 0..8 x fragment counts 0..4 x fragment lengths
-    for n in 0..=8usize {
+    // (1) systematic: piece counts 0..12, 16, 17, 33 x fragment counts 0..4 x fragment lengths
+    for n in (0..=12usize).chain([16, 17, 33]) {
         for nf in 0..=4usize {
             for &l in FRAG_LENS {
                 for variant in 0..3 {
@@ -493,7 +533,7 @@ pub fn run(opts: &Opts) {
             continue;
         }
         let mut rng = Rng::derive(opts.seed, "c15.rand", idx);
-        let n = rng.below(9);
+        let n = *rng.pick(&[0usize, 1, 2, 3, 4, 5, 6, 7, 8, 9, 10, 11, 12, 16, 17, 33]);
         let frags: Vec<Vec<Vec<u8>>> = (0..n)
             .map(|_| {
                 (0..rng.below(5))
@@ -528,7 +568,7 @@ pub fn run(opts: &Opts) {
     rep.set("sum:collision_table_entries", json!(table.len()));
     rep.set(
         "rule",
-        json!("small after large: 24 small inputs sealed / signed / opened right after each 66-70 kB input on the same thread; huge pieces: a piece of 2^31-1 .. 5*2^31 zero bytes (1-3 fragments) between two short pieces through a sink that keeps only the short writes: count and every length prefix must be the full 64-bit value; (adapters: every second grid point and every fourth dense length is repeated under the suffixed payload type so the header piece changes within the process) piece counts 0..8 (monomorphised) x 0..4 fragments per piece x fragment lengths {0,1,7,8,9,63,64,65,255,256,600} x contents {zeros, bytes shaped like LE64 lengths, ff, random}, plus random lists and boundary-shifted / piece-dropped variants with identical concatenation; oracle = independent encoder over whole pieces, independent decoder, and a table of all encodings seen (two different piece lists must never collide); a recording WriteBytes must receive the same byte sequence as a Vec; distinct = distinct (fragment shape, piece contents)"),
+        json!("windows: every total length 2^k-120 .. 2^k+40 for k = 12, 13, 14, 16 with footer and assertion present; small after large: 24 small inputs sealed / signed / opened right after each 66-70 kB input on the same thread; huge pieces: a piece of 2^31-1 .. 5*2^31 zero bytes (1-3 fragments) between two short pieces through a sink that keeps only the short writes: count and every length prefix must be the full 64-bit value; (adapters: every second grid point and every fourth dense length is repeated under the suffixed payload type so the header piece changes within the process) piece counts 0..12, 16, 17, 33 (monomorphised) x 0..4 fragments per piece x fragment lengths {0,1,7,8,9,63,64,65,255,256,600} x contents {zeros, bytes shaped like LE64 lengths, ff, random}, plus random lists and boundary-shifted / piece-dropped variants with identical concatenation; oracle = independent encoder over whole pieces, independent decoder, and a table of all encodings seen (two different piece lists must never collide); a recording WriteBytes must receive the same byte sequence as a Vec; distinct = distinct (fragment shape, piece contents)"),
     );
     rep.set("adapters", json!("the private digest/MAC/stream-verifier adapters of all six backends are observed through the tag / signature: message, footer and assertion lengths from {0,1,7,8,9,63,64,65,127,128,129,255,256,257,600,5000}, local tokens compared byte for byte with the reference (independent PAE), signatures verified by an independent verifier over the independent PAE"));
     rep.finish(opts);
